@@ -166,6 +166,13 @@ func c25SpecGen(g *Gen, tier string, w *bufio.Writer) {
 	for _, s := range c25JsonTexts {
 		emit("jvalid", []byte(s))
 	}
+	for _, d := range []int{1, 2, 50, 300} {
+		emit("jvalid", []byte(strings.Repeat("[", d)+strings.Repeat("]", d)))
+		emit("jvalid", []byte(strings.Repeat("[", d)+strings.Repeat("]", d-1)))
+		emit("jvalid", []byte(strings.Repeat(`{"a":`, d)+"1"+strings.Repeat("}", d)))
+		emit("jvalid", []byte(strings.Repeat(`[{"a":`, d)+"[]"+strings.Repeat("}]", d)))
+		emit("jvalid", []byte("["+strings.Repeat("1,", d)+"1]"))
+	}
 	all := c25AllStrings()
 	n := 1500
 	if thorough {
